@@ -896,6 +896,16 @@ func evalFunctionCall(node *jparse.FunctionCallNode, data reflect.Value, env *en
 		return undefined, newEvalError(ErrNonCallable, node.Func, nil)
 	}
 
+	// Built-in and extension functions are shared by every
+	// evaluation in the process (and by calls nested in each
+	// other's arguments). The name and context of this call
+	// are per-call data: set them on a copy, not on the
+	// shared object.
+	if gc, ok := fn.(*goCallable); ok {
+		c := *gc
+		fn = &c
+	}
+
 	if setter, ok := fn.(nameSetter); ok {
 		if sym, ok := node.Func.(*jparse.VariableNode); ok {
 			setter.SetName(sym.Name)
